@@ -285,7 +285,8 @@ def main(prop, argv=None):
             continue
         hit = None
         for e in known:
-            if e.get("status", "open") == "open" and sig_matches(e.get("signature", {}), sig):
+            sigs = e.get("signatures") or [e.get("signature", {})]
+            if e.get("status", "open") == "open" and any(sig_matches(sg, sig) for sg in sigs):
                 hit = e
                 break
         if hit is not None:
